@@ -33,7 +33,8 @@ type LinuxCase struct {
 	DupDst  bool // the target has two routes to one destination (the kernel refuses the second)
 }
 
-var lxNets = []string{"10.1.1.0/24", "10.1.2.0/24", "10.2.0.0/16", "10.1.1.1", "192.168.1.0/24", "default", "10.3.3.3"}
+// Some networks share the network address and differ in the prefix length.
+var lxNets = []string{"10.1.1.0/24", "10.1.2.0/24", "10.2.0.0/16", "10.1.1.1", "192.168.1.0/24", "default", "10.3.3.3", "10.2.0.0/24", "10.1.1.0/25"}
 var lxHops = []string{"10.9.0.1", "10.9.0.2", "10.9.0.3"}
 
 func genLxRule(tp *tape.Tape, chains []string, self string) linuxdev.Rule {
